@@ -91,7 +91,7 @@ def gen_case(rng):
 
 def nontrivial(case):
     direct = any(e["base"][0] == "call" and e["base"][2] in (10, 11) for e in case["events"])
-    deleg = any(e["base"][0] == "call" and e["base"][2] in (14, 15, 16, 17, 18, 19, 21, 22) and e["base"][3] % 4 >= 2 for e in case["events"])
+    deleg = any(e["base"][0] == "call" and e["base"][2] in (14, 15, 16, 17, 18, 19, 21, 22, 27, 28) and e["base"][3] % 4 >= 2 for e in case["events"])
     return direct and deleg
 
 
@@ -109,7 +109,7 @@ def run(tier, seed):
         for e in c["events"]:
             if e["base"][0] == "call":
                 m = e["base"][2]
-                dist["call:" + {10: "r0", 11: "r1", 14: "p_ref", 15: "p_mut", 16: "p_val", 17: "p_rc(sole)", 18: "p_arc(sole)", 23: "r_rc(sole)", 24: "p_rc2(sole)", 25: "r_rc(kept)", 26: "p_rc2(kept)",
+                dist["call:" + {10: "r0", 11: "r1", 14: "p_ref", 15: "p_mut", 16: "p_val", 17: "p_rc(sole)", 18: "p_arc(sole)", 23: "r_rc(sole)", 27: "p_rc(sole+weak)", 28: "p_arc(sole+weak)", 24: "p_rc2(sole)", 25: "r_rc(kept)", 26: "p_rc2(kept)",
                                  19: "p_pin", 21: "p_rc(kept)", 22: "p_arc(kept)"}.get(m, str(m))] += 1
                 if m >= 14:
                     dist[f"body-calls={e['base'][3] % 4}"] += 1
